@@ -196,3 +196,45 @@ pub fn be96_to_u128(n: &[u8; 12]) -> u128 {
     }
     v
 }
+
+
+// ---------- watchdog for cases that must terminate ----------
+
+#[derive(Clone)]
+pub struct WatchEntry {
+    pub since: std::time::Instant,
+    pub deadline: std::time::Duration,
+    pub family: String,
+    pub case: serde_json::Value,
+}
+
+static WATCH: std::sync::Mutex<Vec<Option<WatchEntry>>> = std::sync::Mutex::new(Vec::new());
+
+pub struct WatchGuard(usize);
+
+/// Registers the case this thread is about to execute; the watchdog thread of the command line reports it as a hang
+/// (the process cannot abandon a spinning thread, so it reports and exits) when it is still registered after `deadline`.
+pub fn watch_enter(family: &str, case: serde_json::Value, deadline: std::time::Duration) -> WatchGuard {
+    let e = WatchEntry { since: std::time::Instant::now(), deadline, family: family.to_string(), case };
+    let mut w = WATCH.lock().unwrap();
+    if let Some(i) = w.iter().position(|x| x.is_none()) {
+        w[i] = Some(e);
+        WatchGuard(i)
+    } else {
+        w.push(Some(e));
+        WatchGuard(w.len() - 1)
+    }
+}
+
+impl Drop for WatchGuard {
+    fn drop(&mut self) {
+        if let Ok(mut w) = WATCH.lock() {
+            w[self.0] = None;
+        }
+    }
+}
+
+pub fn watch_overdue() -> Option<WatchEntry> {
+    let w = WATCH.lock().unwrap();
+    w.iter().flatten().find(|e| e.since.elapsed() > e.deadline).cloned()
+}
